@@ -1,13 +1,13 @@
 package main
 
 import (
-	"runtime"
 	"bytes"
 	"crypto/hmac"
 	"crypto/sha1"
 	"encoding/base64"
 	"fmt"
 	"math/big"
+	"runtime"
 	"strings"
 	"time"
 
@@ -31,10 +31,10 @@ const (
 // randLog is the Conversation.Rand of a party: deterministic, keeps small values for SMP-sized reads
 // (so that the symbolic SMP model can recompute with cheap arithmetic), records every read.
 type randLog struct {
-	r     *RNG
-	reads [][]byte
-	fail  int // fail the n-th next read (1-based); 0 = never
-	owner *Party
+	r       *RNG
+	reads   [][]byte
+	fail    int // fail the n-th next read (1-based); 0 = never
+	owner   *Party
 	zeroSMP bool // SMP-parameter sized reads return zero (a peer that chooses degenerate exponents)
 	keep    bool // C08: keep every value handed out, the buffer it was written to, and the call site
 	draws   []draw
@@ -107,7 +107,7 @@ type Party struct {
 	pol     int
 	rnd     *randLog
 	events  []int
-	outs    [][]byte // every wire message emitted (reassembled if it was fragmented), oldest first
+	outs    [][]byte   // every wire message emitted (reassembled if it was fragmented), oldest first
 	pieces  [][][]byte // the pieces each output was actually emitted as
 	frag    int
 	pending int      // index of the first output not yet delivered in FIFO order
@@ -118,11 +118,13 @@ type Party struct {
 	akeExp  []byte       // the most recent 40-byte value drawn (DH exponent)
 }
 
-func (p *Party) HandleSMPEvent(e otr3.SMPEvent, pct int, q string) { p.events = append(p.events, 200+int(e)) }
+func (p *Party) HandleSMPEvent(e otr3.SMPEvent, pct int, q string) {
+	p.events = append(p.events, 200+int(e))
+}
 func (p *Party) HandleMessageEvent(e otr3.MessageEvent, m []byte, err error, trace ...interface{}) {
 	p.events = append(p.events, int(e))
 }
-func (p *Party) HandleSecurityEvent(e otr3.SecurityEvent) { p.events = append(p.events, 100+int(e)) }
+func (p *Party) HandleSecurityEvent(e otr3.SecurityEvent)   { p.events = append(p.events, 100+int(e)) }
 func (p *Party) HandleErrorMessage(e otr3.ErrorCode) []byte { return []byte{byte(e)} }
 func (p *Party) ReceivedSymmetricKey(usage uint32, data []byte, key []byte) {
 	p.events = append(p.events, 300)
@@ -168,7 +170,7 @@ type Sys struct {
 	trace     []string // human readable
 	disclosed [][][]byte
 	panicked  bool
-	fragEarly bool // a piece other than the last one of a unit produced something
+	fragEarly bool            // a piece other than the last one of a unit produced something
 	sentEnc   map[string]bool // texts given to Send while the sender was encrypted (i.e. transmitted at once)
 	refused   map[string]bool // texts whose Send call returned an error
 	lastOp    map[int]string  // the most recent API call of each party
@@ -339,6 +341,7 @@ func (s *Sys) record(who int, coq string, human string, f func(p *Party) (plain 
 	var err error
 	panicked := false
 	pre := otr3.VerifSnapshot(p.c).MsgState
+	watch(human)
 	func() {
 		defer func() {
 			if r := recover(); r != nil {
@@ -347,6 +350,7 @@ func (s *Sys) record(who int, coq string, human string, f func(p *Party) (plain 
 		}()
 		plain, out, err = f(p)
 	}()
+	watch("")
 	errc := 0
 	if err != nil {
 		errc = 1
@@ -574,7 +578,9 @@ func (s *Sys) tagOfClass(cls, from, to int) uint32 {
 	}
 	return 0x100 + 900000
 }
-func putWord(b []byte, v uint32) { b[0], b[1], b[2], b[3] = byte(v>>24), byte(v>>16), byte(v>>8), byte(v) }
+func putWord(b []byte, v uint32) {
+	b[0], b[1], b[2], b[3] = byte(v>>24), byte(v>>16), byte(v>>8), byte(v)
+}
 func MTag(sender bool, cls int) Mut {
 	name := "MRtag"
 	if sender {
